@@ -146,7 +146,7 @@ CLAIMS = {
         "syntactic criterion relative to the variables already bound) and commutes with every injective map on the constant domain for interpretations that "
         "commute with it - i.e. programs without interpreted functions (derivable_rename_consts); all transferred to what run() computes (run_perm_invariant "
         "and friends, via run_eq_leastModel). Tied metamorphically: each base program is compiled in permuted / renamed / re-typed (i64 -> i32 -> String) "
-        "variants that must all equal the base's naive least model (mapped).",
+        "variants that must all equal the base's naive least model (mapped). Props/C06Phys.lean: the same invariances for the physical engines (ascent! and ascent_par!, any schedules / pools / SCC orders): permuted rules, permuted heads, renamed relations, permuted input vectors give the same facts.",
    design_ref="DESIGN.md §8 C06", note=ENGINE_NOTE + " Names starting with two underscores and `_self` are reserved by the generated code; a user variable named like the repeated-variable gensym (`x_`) is finding F10 (see C07)."),
  "C09": dict(
    engine="tie-B-engine",
@@ -222,7 +222,7 @@ CLAIMS = {
         "was present (rows_set, inputs_kept, rows_count), for all programs/inputs/interpretations; for the parallel head update, exactly one of the workers "
         "racing on a tuple wins insert_if_not_present in every interleaving of the atomic steps (par_exactly_one_push, from C19). Tied by compiled serial and "
         "ascent_par! twins of generated programs: row multiplicities of every relation are compared with the model and checked against the input's own "
-        "multiplicities, incl. a many-workers-same-tuple stress program.",
+        "multiplicities, incl. a many-workers-same-tuple stress program. Props/C05Phys.lean: the statement over the physical engines (generated code of ascent! incl. aggregation, and of ascent_par! for every schedule / pool): result vector = start vector ++ pairwise distinct new rows, each derivable fact stored exactly once, a duplicate in the result is a duplicate the caller supplied.",
    design_ref="DESIGN.md §8 C05", note=ENGINE_NOTE + " Partial for the parallel half: shard-lock atomicity is an assumption; real interleavings are exercised, not proved."),
  "C13": dict(
    engine="tie-B-engine",
